@@ -4,7 +4,8 @@ Open Scope N_scope.
 
 Inductive rop :=
 | RReq (t0 t1 : Z) (chaddr host : bytes)       (* clock readings taken just before and after the call *)
-| RRestart (table : list (bytes * bytes)).    (* restart; carries the (mac, ip) rows the harness read *)
+| RRestart (table : list (bytes * bytes))     (* restart; carries the (mac, ip) rows the harness read *)
+| RRestartAs (s' e' : bytes) (table : list (bytes * bytes)).   (* restart on the same database with another configured range *)
 
 Inductive rout :=
 | ROut (yiaddr : bytes) (opt51 : bytes) (expiry : option Z)   (* expiry: the client's row in leases4 after the call *)
@@ -71,6 +72,13 @@ Fixpoint rrun_ok (s e : bytes) (lo hi : rstate) (ops : list rop) (outs : list ro
       let agrees := table_eqb tbl (map (fun r => (r_mac r, r_ip r)) (rs_db lo)) in
       match restart1 s e lo, restart1 s e hi, obs with
       | Some lo', Some hi', RRestartOk a => Bool.eqb a agrees && rrun_ok s e lo' hi' ops' outs'
+      | None, None, RRestartErr => match outs' with [] => true | _ => false end
+      | _, _, _ => false
+      end
+  | RRestartAs s2 e2 tbl :: ops', obs :: outs' =>
+      let agrees := table_eqb tbl (map (fun r => (r_mac r, r_ip r)) (rs_db lo)) in
+      match restart1 s2 e2 lo, restart1 s2 e2 hi, obs with
+      | Some lo', Some hi', RRestartOk a => Bool.eqb a agrees && rrun_ok s2 e2 lo' hi' ops' outs'
       | None, None, RRestartErr => match outs' with [] => true | _ => false end
       | _, _, _ => false
       end
